@@ -180,6 +180,42 @@ class Gen:
         self.pop()
         return [init, g.while_(g.binop(">", I(c), L(0)), body)]
 
+    def pattern(self, names, depth=0):
+        """a switch pattern; names collects (name, kind) it binds.  `literally e` is generated before the
+        pattern's own names are declared: e runs before the pattern binds anything"""
+        r = self.rng.random()
+        if depth == 0 and r < 0.35:
+            return g.lv_tuple([self.pattern(names, 1) for _ in range(self.rng.choice([1, 2, 2, 3]))])
+        if r < 0.55:
+            return g.lv_lit(self.rng.randint(0, 3))
+        if r < 0.8:
+            x = self.fresh("m")
+            names.append((x, "int" if depth else "any"))
+            return g.lv_id(x)
+        if r < 0.9:
+            return g.LV_IGNORE
+        return g.lv_lity(self.int_expr(2))
+
+    def switch_stmt(self):
+        if self.rng.random() < 0.5:
+            scrut = self.int_expr(1)
+        else:
+            scrut = g.lst([self.int_expr(2) for _ in range(self.rng.choice([1, 2, 2, 3]))])
+        arms = []
+        for _ in range(self.rng.randint(1, 3)):
+            names = []
+            pat = self.pattern(names)
+            self.push()
+            for x, k in names:
+                self.declare(x, k)
+            arms.append((pat, self.block(2)))
+            self.pop()
+        if self.rng.random() < 0.6:
+            self.push()
+            arms.append((g.LV_IGNORE, self.block(1)))
+            self.pop()
+        return g.switch(scrut, arms)
+
     # ---------------------------------------------------------------- statements
     def block(self, n):
         stmts = []
@@ -286,6 +322,8 @@ class Gen:
             handler = self.block(2)
             self.pop()
             return [g.try_(body, x, handler)]
+        if r < 0.925:
+            return [self.switch_stmt()]
         if r < 0.95 and self.loop_depth > 0:
             lv = self.rng.randint(0, self.loop_depth - 1) if self.rng.random() < 0.8 else self.loop_depth
             return [g.if_(self.cond(1), self.rng.choice([g.brk(lv), g.cont(lv), g.brk(lv, self.int_expr(2))]))]
